@@ -1,7 +1,10 @@
-(* C10 — routing invokes the handler that the route table prescribes (partial: soundness and
-   completeness of the backtracking search w.r.t. the pattern-matching specification, for every
-   table, iteration order of same-kind children, and path; minimality of the chosen route among
-   the matching ones is decided by the correspondence oracle, not by a theorem yet). *)
+(* C10 — routing invokes the handler that the route table prescribes.  Soundness and completeness of the
+   backtracking search w.r.t. the pattern-matching specification hold for every table, iteration order
+   of same-kind children, and path.  Precedence (fixed over parameter over wildcard, decided segment by
+   segment) is a theorem for tables without optional parameters in which a node has at most one parameter
+   name (C10_best_route, C10_best_route_is_unique); with optional parameters the code does NOT implement the
+   property's precedence (open finding C10-present-first), and the order in which several parameter
+   children of one node are visited is a hash map's - both decided case by case by the correspondence. *)
 From Coq Require Import Ascii String List NArith Arith.
 Require Import Bytes RouterModel RouterLemmas.
 Import ListNotations.
@@ -45,6 +48,46 @@ Proof.
     apply Bool.negb_true_iff in Hx. apply N.eqb_neq in Hx. exact Hx.
 Qed.
 Print Assumptions C10_status.
+
+(* Precedence.  In a tree without optional parameters whose nodes each have at most one parameter name, the route found
+   is a matching route whose sequence of segment kinds (fixed 0, parameter 1, wildcard 3) is lexicographically least
+   among ALL matching routes: fixed wins over parameter, parameter over wildcard, at the first segment where two
+   matching routes differ in kind, whatever comes behind ... *)
+Theorem C10_best_route : forall path n h ps ss,
+  no_opt n -> uniform n -> find_route path n [] [] = Some (h, ps, ss) ->
+  exists p, In (p, h) n /\ matches p path ps ss /\
+    forall p' h' b' s', In (p', h') n -> matches p' path b' s' -> lex_le (kinds p) (kinds p').
+Proof. exact find_route_best. Qed.
+Print Assumptions C10_best_route.
+
+(* ... and two matching routes with the same sequence of kinds are the same pattern: the best route is unique *)
+Theorem C10_best_route_is_unique : forall p1 path b1 s1, matches p1 path b1 s1 ->
+  forall p2 b2 s2, matches p2 path b2 s2 -> no_opt_pat p1 -> no_opt_pat p2 -> compat p1 p2 ->
+  kinds p1 = kinds p2 -> p1 = p2.
+Proof. exact same_kinds_same_pattern. Qed.
+Print Assumptions C10_best_route_is_unique.
+
+(* non-vacuity: four overlapping routes; the hypotheses hold, the all-fixed route wins, then parameter-then-fixed *)
+Definition ex_tree : node :=
+  [ ([Fixed (list_of_string "a"); Param (list_of_string ":x")], 1%N);
+    ([Param (list_of_string ":x"); Fixed (list_of_string "b")], 2%N);
+    ([Splat], 3%N);
+    ([Fixed (list_of_string "a"); Fixed (list_of_string "b")], 4%N);
+    ([Param (list_of_string ":x"); Splat], 5%N) ].
+Example C10_ex_hypotheses : no_opt ex_tree /\ uniform ex_tree.
+Proof.
+  split.
+  - intros p h Hin. cbn in Hin. repeat (destruct Hin as [Hin|Hin]; [inversion Hin; subst; repeat constructor|]). contradiction.
+  - intros p1 h1 p2 h2 H1 H2. cbn in H1, H2.
+    repeat (destruct H1 as [H1|H1]; [inversion H1; subst; clear H1|]); try contradiction;
+      repeat (destruct H2 as [H2|H2]; [inversion H2; subst; clear H2|]); try contradiction; cbn; auto.
+Qed.
+Example C10_ex_precedence :
+  find_route [list_of_string "a"; list_of_string "b"] ex_tree [] [] = Some (4%N, [], [])
+  /\ find_route [list_of_string "c"; list_of_string "b"] ex_tree [] [] = Some (2%N, [(list_of_string ":x", list_of_string "c")], [])
+  /\ find_route [list_of_string "c"; list_of_string "d"] ex_tree [] [] = Some (5%N, [(list_of_string ":x", list_of_string "c")], [list_of_string "d"])
+  /\ find_route [list_of_string "c"] ex_tree [] [] = Some (3%N, [], [list_of_string "c"]).
+Proof. vm_compute. repeat split; reflexivity. Qed.
 
 Example C10_ex :
   match add_route [] 1%N (list_of_string "/a") 1%N with
